@@ -73,7 +73,7 @@ theorem entWrite_lenOk (d : Nat) (s : St) (k : Nat) (v : Int) (ts now : Int) (h1
     refine pushSample_lenOk d k _ _ (regInsts_lenOk d k _ h) ?_
     intro i hi
     rcases findInst_regInsts s.insts k with ⟨j, hj, _, hj2⟩ | ⟨_, _, hj2⟩
-    · rw [hj2] at hi; cases hi; exact hroom _ hj
+    · rw [hj2] at hi; cases hi; exact hroom j hj
     · rw [hj2] at hi; cases hi; simp; omega
 
 theorem entWrite_acked (s : St) (k : Nat) (v : Int) (ts now : Int) (sn : Nat) :
@@ -114,6 +114,19 @@ theorem matchReader_frame (s : St) (rid : Nat) (rel tl : Bool) :
     ∧ (matchReader s rid rel tl).lastSn = s.lastSn ∧ (matchReader s rid rel tl).pending = s.pending
     ∧ (matchReader s rid rel tl).changes = s.changes := by
   simp [matchReader]
+
+/-- unregister_instance never touches the QoS, the pending write or a sample deque -/
+theorem unregisterW_frame (s : St) (k : Nat) (ts now : Int) :
+    (unregisterW s k ts now).1.qos = s.qos ∧ (unregisterW s k ts now).1.pending = s.pending
+    ∧ isAckedBy (unregisterW s k ts now).1.proxies = isAckedBy s.proxies
+    ∧ ((unregisterW s k ts now).1.insts = s.insts ∨ (unregisterW s k ts now).1.insts = clearReg k s.insts) := by
+  unfold unregisterW
+  split
+  · refine ⟨by simp [addChange], by simp [addChange], ?_, Or.inr (by simp [addChange])⟩
+    funext sn
+    simp only [addChange]
+    exact isAckedBy_writeMessageAll _ _ _ _
+  · exact ⟨rfl, rfl, rfl, Or.inl rfl⟩
 
 -- ------------------------------------------------------------------------------------------- depth invariant
 
@@ -186,6 +199,14 @@ theorem step_depth (d : Nat) (h1 : 1 ≤ d) (s : St) (e : Ev) (h : DepthInv d s)
   | matchReader rid rel tl =>
     have hf := matchReader_frame s rid rel tl
     exact ⟨by simp only [step]; rw [hf.1]; exact h.1, by simp only [step]; rw [hf.2.1]; exact h.2⟩
+  | unregister k ts now =>
+    have hr := removeStale_frame s now
+    have hu := unregisterW_frame (removeStale s now) k ts now
+    refine ⟨by simp only [step]; rw [hu.1, hr.1]; exact h.1, ?_⟩
+    simp only [step]
+    rcases hu.2.2.2 with hi | hi
+    · rw [hi, hr.2.1]; exact h.2
+    · rw [hi, hr.2.1]; exact clearReg_lenOk d k _ h.2
 
 -- ------------------------------------------------------------------------------------------- evictions are acknowledged
 
@@ -254,6 +275,8 @@ theorem step_qos (s : St) (e : Ev) : (step s e).1.qos = s.qos := by
     simp only [step, tick, tickRest]
     rw [(poke_frame _ now).1, processPending_qos, (checkTimeout_frame _ now).1, (removeStale_frame s now).1]
   | matchReader rid rel tl => simp [step, matchReader]
+  | unregister k ts now =>
+    simp only [step]; rw [(unregisterW_frame _ k ts now).1, (removeStale_frame s now).1]
 
 theorem run_qos (evs : List Ev) : ∀ s : St, (run s evs).qos = s.qos := by
   induction evs with
